@@ -404,7 +404,16 @@ def get_trace(job, r, failed_ids):
                     v = s_.get("value", {})
                     if (lhs.startswith("vin.") or lhs.startswith("vin[")) and "$" not in lhs and "data" in v and v.get("name") in (
                             "integer", "boolean", "float", "pointer", "unknown"):
-                        vin[re.sub(r"\[(\d+)[a-z]*\]", r"[\1]", lhs)] = v["data"]
+                        key = re.sub(r"\[(\d+)[a-z]*\]", r"[\1]", lhs)
+                        val = v["data"]
+                        if v.get("name") == "integer" and re.fullmatch(r"[01]+", v.get("binary", "")):
+                            n = int(v["binary"], 2); w = len(v["binary"])
+                            if not str(v.get("type", "")).startswith("unsigned") and v["binary"][0] == "1" and "char" not in str(v.get("type", "")):
+                                n -= 1 << w
+                            elif "char" in str(v.get("type", "")) and not str(v.get("type", "")).startswith("unsigned") and v["binary"][0] == "1":
+                                n -= 1 << w
+                            val = str(n) + ("u" if n > 2147483647 and w <= 32 else "") + ("ull" if w > 32 and n > 9223372036854775807 else "")
+                        vin[key] = val
                 elif s_.get("stepType") == "failure":
                     steps.append(s_.get("reason", ""))
             res[p["property"]] = vin
@@ -584,6 +593,11 @@ def check(prop_id, spec, tier, specdir):
                 k = match_known(known, prop_id, j, p)
                 if k:
                     known_hits.append((k, j, p))
+                    # a listed finding is reported on its own line and in known_failed, not among the obligations
+                    if j.bounded and meta.get("level") == "proof":
+                        b_obl -= 1
+                    else:
+                        obligations -= 1
                 else:
                     unk.append(p)
             if unk:
@@ -645,7 +659,8 @@ def check(prop_id, spec, tier, specdir):
         "bounded_obligations": b_obl, "bounded_discharged": b_dis,
         "exhaustive": False,
         "solver_seconds_sum": round(solver_s, 1),
-        "known_findings_reported": [k.get("what", "") for k, _, _ in known_hits],
+        "known_findings_reported": sorted(set(k.get("what", "") for k, _, _ in known_hits)),
+        "known_failed_obligations": [{"job": j.name, "obligation": p["desc"][:160]} for _, j, p in known_hits],
         "undecided": undecided,
         "jobs": len(jobs),
         "repo": REPO,
